@@ -155,6 +155,43 @@ def tracker_ops(draw, visual, batch, nobj, scenes, occluder=False):
         ops.append({"op": "wasted"})
         ops.append({"op": "epoch", "scene": 0, "default_scene": False})
         return ops
+    if len(scenes) > 1 and draw(st.integers(0, 3)) == 0:
+        # scene probe: every scene gets its objects, then some scenes lose some of them (idle tracks,
+        # different epochs per scene), then every per-scene query is asked for every scene
+        def frame(sc, tt, keep):
+            dets = []
+            for o in range(nobj):
+                if o not in keep:
+                    continue
+                d = {"box": {"ctor": "new_with_confidence", "xc": f32(100.0 + 250.0 * o + 2.0 * tt), "yc": f32(100.0 + 40.0 * (o % 2)), "angle": None, "aspect": f32(0.8 + 0.1 * o), "height": f32(50.0 + o), "confidence": 1.0}, "custom": 10 * (sc % 7) + o}
+                if visual:
+                    d["feature"] = [f32(math.cos(o * 1.3 + k)) for k in range(4)]
+                    d["quality"] = 0.9
+                dets.append(d)
+            return dets
+        everything = list(range(nobj))
+        for sc in scenes:
+            for tt in range(1, draw(st.integers(1, 3)) + 1):
+                t[sc] += 1
+                ops.append({"op": "predict", "scene": sc, "default_scene": False, "dets": frame(sc, t[sc], everything)})
+        for sc in scenes:
+            if draw(st.booleans()):
+                keep = [o for o in everything if draw(st.booleans())]
+                if batch and not keep:
+                    continue
+                t[sc] += 1
+                ops.append({"op": "predict", "scene": sc, "default_scene": False, "dets": frame(sc, t[sc], keep)})
+            if draw(st.integers(0, 3)) == 0:
+                ops.append({"op": "skip", "scene": sc, "n": draw(st.integers(1, 3)), "default_scene": False})
+        for sc in scenes:
+            ops.append({"op": "idle", "scene": sc, "default_scene": False})
+            ops.append({"op": "epoch", "scene": sc, "default_scene": False})
+        if not batch:
+            ops.append({"op": "idle", "scene": 0, "default_scene": True})
+        ops.append({"op": "epoch", "scene": 0, "default_scene": True})
+        ops.append({"op": "stats"})
+        ops.append({"op": "wasted"})
+        return ops
     for _ in range(nsteps):
         kind = draw(st.sampled_from(["predict"] * 6 + ["skip", "skip", "epoch", "wasted", "wasted", "idle", "clear_wasted", "stats"] + (["predict_multi"] * 3 if batch and len(scenes) > 1 else []) + (["predict_pipelined"] * 2 if batch else [])))
         scene = draw(st.sampled_from(scenes))
